@@ -20,11 +20,21 @@ func pUnprot(h *Term) *Term {
 // encoderWireValue: for a structure encoder, the term of the wire struct value
 // handed to the encoder mode, the tag number (or -1) and the mode term.
 func (P *Prog) encoderWireValue(enc *ssa.Function) (wire *Term, tag int64, mode *Term, why string) {
+	return P.encoderWireValueD(enc, 8)
+}
+
+// encoderWireValueRaw: the same with only the encoder's own delegation
+// inlined (helper calls inside the wire value stay as calls).
+func (P *Prog) encoderWireValueRaw(enc *ssa.Function) (wire *Term, tag int64, mode *Term, why string) {
+	return P.encoderWireValueD(enc, 0)
+}
+
+func (P *Prog) encoderWireValueD(enc *ssa.Function, depth int) (wire *Term, tag int64, mode *Term, why string) {
 	t := P.terms.successResult(enc, 0)
 	if t == nil {
 		return nil, -1, nil, "no success result"
 	}
-	t = P.terms.expand(t, 8)
+	t = P.terms.expand(t, depth)
 	// collect Enc(mode, X) alternatives
 	var calls []*Term
 	var collect func(u *Term)
